@@ -140,7 +140,22 @@ func genC18(g *Gen) error {
 		return err
 	}
 	sort.SliceStable(rows, func(i, j int) bool { return rows[i][0] < rows[j][0] })
+	var keep []string
+	for i := range rows {
+		// `name="x_prom" keepMetric=true` -> name, and the keepMetric functions listed apart
+		v := rows[i][1]
+		if strings.HasSuffix(v, " keepMetric=true") {
+			keep = append(keep, rows[i][0])
+			v = strings.TrimSuffix(v, " keepMetric=true")
+		}
+		nm, err := strconv.Unquote(strings.TrimPrefix(v, "name="))
+		if err != nil {
+			return fmt.Errorf("rangeVectorFunctions[%s]: unexpected fields %q", rows[i][0], rows[i][1])
+		}
+		rows[i][1] = nm
+	}
 	g.PairList("rangeVectorFunctions", rows)
+	g.StrList("keepMetricFunctions", keep)
 	reg, err := registryCalls(g, en+"prom_functions.go")
 	if err != nil {
 		return err
